@@ -52,27 +52,40 @@ def _roles(ck, fa):
         elif flags == {"False"}:
             r["oloops"].append(n)
     pl = r["ploops"][0].ast if len(r["ploops"]) == 1 else None
-    r["PIDX"] = None
-    r["PK"] = r["PV"] = None
+    r["PIDX"], r["PK"], r["PV"] = _loop_vars(pl) if pl is not None else (None, None, None)
+    # the loop(s) that walk the parent's entries: the one that copies them and, when the work is split over two
+    # passes, any other loop over the same listing reached under the same conditions
+    r["parent_passes"] = []
     if pl is not None:
-        it = pl.iter
-        if isinstance(it, ast.Call) and A.call_attr(it) == "items" and isinstance(A.call_recv(it), ast.Name):
-            r["PIDX"] = A.call_recv(it).id
-        if isinstance(pl.target, ast.Tuple) and len(pl.target.elts) == 2:
-            r["PK"], r["PV"] = A.norm(pl.target.elts[0]), A.norm(pl.target.elts[1])
-        elif isinstance(pl.target, ast.Name):
-            # `for k in parent_index:` / `.keys()`: the entry is parent_index[k]
-            if isinstance(it, ast.Call) and A.call_attr(it) == "keys" and not it.args:
-                it = A.call_recv(it)
-            if isinstance(it, ast.Name):
-                r["PIDX"] = it.id
-                r["PK"], r["PV"] = pl.target.id, "%s[%s]" % (it.id, pl.target.id)
+        head = r["ploops"][0]
+        it, cond = fa.xnorm(pl.iter, head.id), fa.conditions(pl)
+        for n in _for_nodes(fa):
+            if n.ast is pl or (fa.xnorm(n.ast.iter, n.id) == it and fa.conditions(n.ast) == cond and not fa.inside(n.ast, pl)):
+                r["parent_passes"].append(n)
     r["PDS"] = None
-    if pl is not None:
-        for c in A.calls_in(pl):
-            if A.call_attr(c) == "reference" and c.args and isinstance(c.args[0], ast.Name):
+    for n in r["parent_passes"]:
+        for c in A.calls_in(n.ast):
+            if A.call_attr(c) == "reference" and c.args and isinstance(c.args[0], ast.Name) and r["PDS"] is None:
                 r["PDS"] = c.args[0].id
     return r
+
+
+def _loop_vars(loop):
+    """(name of the mapping a loop walks, text of the key of the entry at hand, text of the entry) for
+    `for k, v in m.items()` / `for k in m` / `for k in m.keys()`; (None, None, None) for another shape."""
+    it = loop.iter
+    if isinstance(loop.target, ast.Tuple) and len(loop.target.elts) == 2:
+        idx = A.call_recv(it).id if isinstance(it, ast.Call) and A.call_attr(it) == "items" and isinstance(A.call_recv(it), ast.Name) else None
+        return idx, A.norm(loop.target.elts[0]), A.norm(loop.target.elts[1])
+    if isinstance(loop.target, ast.Name):
+        # `for k in parent_index:` / `.keys()`: the entry is parent_index[k]
+        if isinstance(it, ast.Call) and A.call_attr(it) == "keys" and not it.args:
+            it = A.call_recv(it)
+        if isinstance(it, ast.Name):
+            return it.id, loop.target.id, "%s[%s]" % (it.id, loop.target.id)
+    if isinstance(it, ast.Call) and A.call_attr(it) == "items" and isinstance(A.call_recv(it), ast.Name):
+        return A.call_recv(it).id, None, None
+    return None, None, None
 
 
 def _pol(lits, *texts):
@@ -125,7 +138,7 @@ def _entry_at(fa, value, at, fields):
     return {f: A.norm(v) for f, v in ef.items()}
 
 
-def _on_trail(fa, atom, at, trail):
+def _on_trail(fa, atom, at, trail, keep=()):
     """`atom` (tested at node `at`) with every local replaced by the value the path gave it last before the
     test — the path-sensitive counterpart of FA.expand for locals that have several definitions."""
     import copy
@@ -143,11 +156,36 @@ def _on_trail(fa, atom, at, trail):
 
     class T(ast.NodeTransformer):
         def visit_Name(self, n):
-            if isinstance(n.ctx, ast.Load) and n.id in last and last[n.id][0] is not None:
+            if isinstance(n.ctx, ast.Load) and n.id in last and last[n.id][0] is not None and n.id not in keep:
                 return fa.expand(last[n.id][0], last[n.id][1])
             return n
 
-    return T().visit(copy.deepcopy(atom))
+    out = copy.deepcopy(atom)
+    for _round in range(4):
+        # a value put in may itself mention a local the path assigned (the name of an attribute chosen first)
+        before = ast.dump(out)
+        out = _fold(T().visit(out))
+        if ast.dump(out) == before:
+            break
+    return out
+
+
+def _fold(e):
+    """`('a', 'b')[0]` -> 'a', `{'x': 'a'}['x']` -> 'a': a name looked up in a literal table is the name."""
+    class F(ast.NodeTransformer):
+        def visit_Subscript(self, n):
+            self.generic_visit(n)
+            k = n.slice
+            if isinstance(n.value, (ast.Tuple, ast.List)) and isinstance(k, ast.Constant) and isinstance(k.value, int) \
+                    and -len(n.value.elts) <= k.value < len(n.value.elts) and not any(isinstance(x, ast.Starred) for x in n.value.elts):
+                return n.value.elts[k.value]
+            if isinstance(n.value, ast.Dict) and isinstance(k, ast.Constant) and all(isinstance(x, ast.Constant) for x in n.value.keys):
+                for kk, vv in zip(n.value.keys, n.value.values):
+                    if kk.value == k.value:
+                        return vv
+            return n
+
+    return F().visit(e)
 
 
 def _facts(fa, lits, subject, trail=()):
@@ -162,7 +200,7 @@ def _facts(fa, lits, subject, trail=()):
             try:
                 d = PM.duck_atom(PM._strip_casts(fa.expand(l.atom, l.at)), subject)
                 if d is None and trail:
-                    d = PM.duck_atom(PM._strip_casts(_on_trail(fa, l.atom, l.at, trail)), subject)
+                    d = PM.duck_atom(PM._strip_casts(_on_trail(fa, l.atom, l.at, trail, (subject,))), subject)
             except Exception:  # noqa
                 d = None
         if d and d[0] == "isinstance" and "PicklePartition" in d[1]:
@@ -185,6 +223,8 @@ def _parent_reads(fa, MP, use=None):
         elif isinstance(x, ast.Call) and isinstance(x.func, ast.Name) and x.func.id == "getattr" and len(x.args) in (2, 3) and isinstance(x.args[0], ast.Name) \
                 and A.const_str(x.args[1]):
             subj, attr = x.args[0], A.const_str(x.args[1])
+        elif isinstance(x, ast.Call) and isinstance(x.func, ast.Name) and x.func.id == "getattr" and len(x.args) in (2, 3) and isinstance(x.args[0], ast.Name):
+            subj, attr = x.args[0], x.args[1]  # the name is chosen first (a table by kind of parent): known per path
         if attr is None:
             continue
         ids = fa.nodes(x)
@@ -197,6 +237,20 @@ def _parent_reads(fa, MP, use=None):
         paths = PM.walk(fa, ids)
         if not paths:
             continue
+        if not isinstance(attr, str):
+            from ..loader import AnalysisError
+            for (_t, lits, _tr) in paths:
+                nm = A.const_str(_on_trail(fa, attr, ids[0], _tr))
+                if nm is None:
+                    raise AnalysisError("%s: the attribute `%s` reads off the merge parent cannot be told on every path" % (fa.qual, A.short(x, 50)))
+                (i, h) = _facts(fa, lits, MP, _tr)
+                if i is True:
+                    stored.add(nm)
+                else:
+                    duck.add(nm)
+                    if use is None:
+                        tested = h if tested is None else (tested & h)
+            continue
         facts = [_facts(fa, lits, MP, _tr) for (_t, lits, _tr) in paths]
         if all(i is True for (i, _h) in facts):
             stored.add(attr)
@@ -207,6 +261,8 @@ def _parent_reads(fa, MP, use=None):
                 tested = h if tested is None else (tested & h)
     if use is not None:
         for (_t, lits, _tr) in PM.walk(fa, [use]):
+            if _there(lits, MP) is False:
+                continue  # a path without a parent says nothing about what a parent has
             (i, h) = _facts(fa, lits, MP, _tr)
             if i is False:
                 tested = h if tested is None else (tested & h)
@@ -217,7 +273,7 @@ def check_protocol(ck, R):
     ck.rule(R, "merge-parent protocol: for every concrete Partition class other than the stored form, the 'remember "
                "where it was written' test in store() succeeds on its declared attributes, the 'usable as parent' test "
                "can succeed, and the attributes written are the ones later read from a parent", 5)
-    fa = FA(ck, PM.STORE)
+    fa = PM.view(ck, PM.STORE, "branches")
     ro = _roles(ck, fa)
     MP, INDEX = ro["MP"], ro["INDEX"]
     writes = PM.store_writes_on_obj(fa)
@@ -332,7 +388,12 @@ def check_protocol(ck, R):
           "when the object being stored is itself the stored form (a function returning a partition it got from another memento function), only "
           "its non-inherited keys are listed and nothing copies the inherited entries of its own index: they are missing from the new entry", fa.where())
     # otherwise: I/O error (absorbed by the runner, see C08.R3)
-    els = [r for r in fa.stmts(ast.Raise) if isinstance(r.exc, ast.Call) and A.call_attr(r.exc) in ("IOError", "OSError")]
+    def raised(r):
+        e = r.exc
+        if isinstance(e, ast.Name) and fa.nodes(r):
+            e = fa.expand(e, fa.nodes(r)[0])
+        return e
+    els = [r for r in fa.stmts(ast.Raise) if isinstance(raised(r), ast.Call) and A.call_attr(raised(r)) in ("IOError", "OSError")]
     ck.ob(R, fa.key(None, "unusable-parent-signalled"), bool(els), "an unusable parent is signalled as an I/O error" if els else
           "an unusable merge parent is not signalled as an I/O error", fa.where())
 
@@ -356,7 +417,7 @@ def check_overlay(ck, R):
     ck.rule(R, "overlay order: the parent's index entries are copied (marked from_parent) before the partition's own "
                "keys are layered on top, own keys come from list_keys(_include_merge_parent=False), and both go into the "
                "one index that is serialised", 6)
-    fa = FA(ck, PM.STORE)
+    fa = PM.view(ck, PM.STORE, "branches")
     cfg = fa.cfg
     ro = _roles(ck, fa)
     MP, INDEX, PV, PDS, PIDX, fields = ro["MP"], ro["INDEX"], ro["PV"], ro["PDS"], ro["PIDX"], ro["fields"]
@@ -394,9 +455,21 @@ def check_overlay(ck, R):
             cfg.node(i).ast is None or fa.inside(cfg.node(i).ast, pl.ast) for i in live)
         ck.ob(R, fa.key(pl.ast, "every-parent-entry"), okall, "every parent entry is copied into the merged index" if okall else
               "an iteration of the parent loop can skip `index[k] = ...` (continue / early exit): such parent-only keys disappear from the stored child", fa.where(pl.ast))
-    refs = [c for c in A.calls_in(pl.ast) if A.call_attr(c) == "reference"]
-    okr = bool(refs) and PDS is not None and PIDX is not None and all(
-        len(c.args) == 3 and A.norm(c.args[0]) == PDS and [fa.xnorm(a, fa.nodes(c)[0]) for a in c.args[1:]] == ["%s.content_key" % PV] * 2 for c in refs)
+    refs = []
+    okr = PDS is not None and PIDX is not None
+    for n in ro["parent_passes"]:
+        (_idx, _k, v_) = _loop_vars(n.ast)
+        for c in A.calls_in(n.ast):
+            if A.call_attr(c) != "reference":
+                continue
+            refs.append(c)
+            okr = okr and v_ is not None and len(c.args) == 3 and A.norm(c.args[0]) == PDS and \
+                [fa.xnorm(a, fa.nodes(c)[0]) for a in c.args[1:]] == ["%s.content_key" % v_] * 2
+            # every entry is referenced: no iteration starts the next one or leaves the loop before the call
+            starts = [d for (d, l) in cfg.succ[n.id] if l == "T"]
+            live = cfg.reach(starts, removed=fa.nodes(c), edge_ok=lambda a, b, l: l != "exc")
+            okr = okr and n.id not in live and cfg.exit not in live
+    okr = okr and bool(refs)
     if okr:
         # the data source named is the parent's own: on every path into the loop body, the index iterated and the
         # data source referenced were read off the parent object as a pair (stored form: its index and its data
@@ -414,8 +487,9 @@ def check_overlay(ck, R):
                             dd = (v, i)
             if di is not None and di[0] is not None and A.norm(di[0]) in ("{}", "dict()"):
                 continue  # an empty default: the body is not entered on this path
-            xi = fa.xnorm(di[0], di[1]) if di and di[0] is not None else ""
-            xd = fa.xnorm(dd[0], dd[1]) if dd and dd[0] is not None else ""
+            upto = lambda i: tr[:tr.index(i)] if i in tr else tr
+            xi = A.norm(PM._strip_casts(_on_trail(fa, fa.expand(di[0], di[1]), di[1], upto(di[1]), (MP,)))) if di and di[0] is not None else ""
+            xd = A.norm(PM._strip_casts(_on_trail(fa, fa.expand(dd[0], dd[1]), dd[1], upto(dd[1]), (MP,)))) if dd and dd[0] is not None else ""
             ga = re.compile(r"getattr\(%s, '(\w+)'(, None)?\)" % re.escape(MP))
             xi, xd = ga.sub(MP + r".\1", xi), ga.sub(MP + r".\1", xd)
             mi, md = re.fullmatch(re.escape(MP) + r"\.(\w+)", xi), re.fullmatch(re.escape(MP) + r"\.(\w+)", xd)
@@ -474,6 +548,18 @@ def _one(tok):
     return (frozenset([tok]), False)
 
 
+_DUP = ("dup",)  # the collection may hold the same key twice (two listings put end to end, never made a set)
+
+
+def _uniq(srcs):
+    return frozenset(t for t in srcs if t != _DUP)
+
+
+def _joined(a, b):
+    """Sources of two collections put end to end (list + list, extend): a key in both is there twice."""
+    return (a | b | frozenset([_DUP])) if (_uniq(a) and _uniq(b)) else (a | b)
+
+
 def _kv(e, env):
     """Abstract value of a key-collection expression: (frozenset of sources, sorted?).  Sources:
     ('own', field, filter-or-None) the keys of self.<field>; ('parent',) the merge parent's full listing;
@@ -506,27 +592,29 @@ def _kv(e, env):
                     return (s, not e.keywords)
                 if e.func.id in ("list", "tuple", "iter") and not e.keywords:
                     return (s, so)
-                return (s, False)
+                return (_uniq(s), False)  # set / frozenset
         if recv is not None and name == "union" and not e.keywords:
             s = _kv(recv, env)[0]
             for a in e.args:
                 s = s | _kv(a, env)[0]
-            return (s, False)
+            return (_uniq(s), False)
         if recv is not None and name == "copy" and not e.args and not e.keywords:
             return (_kv(recv, env)[0], False)
         if name == "chain" and not e.keywords and not any(isinstance(a, ast.Starred) for a in e.args):
             s = frozenset()
             for a in e.args:
-                s = s | _kv(a, env)[0]
+                s = _joined(s, _kv(a, env)[0])
             return (s, False)
         return _one(("?", A.norm(e)))
-    if isinstance(e, ast.BinOp) and isinstance(e.op, (ast.BitOr, ast.Add)):
-        return (_kv(e.left, env)[0] | _kv(e.right, env)[0], False)
+    if isinstance(e, ast.BinOp) and isinstance(e.op, ast.BitOr):
+        return (_uniq(_kv(e.left, env)[0] | _kv(e.right, env)[0]), False)
+    if isinstance(e, ast.BinOp) and isinstance(e.op, ast.Add):
+        return (_joined(_kv(e.left, env)[0], _kv(e.right, env)[0]), False)
     if isinstance(e, (ast.Set, ast.List, ast.Tuple)):
         s = frozenset()
         for x in e.elts:
-            s = s | (_kv(x.value, env)[0] if isinstance(x, ast.Starred) else frozenset([("?", A.norm(x))]))
-        return (s, False)
+            s = _joined(s, _kv(x.value, env)[0] if isinstance(x, ast.Starred) else frozenset([("?", A.norm(x))]))
+        return (_uniq(s) if isinstance(e, ast.Set) else s, False)
     if isinstance(e, (ast.ListComp, ast.SetComp, ast.GeneratorExp)) and len(e.generators) == 1 and not e.generators[0].is_async:
         g = e.generators[0]
         keyvar = valvar = None
@@ -539,7 +627,11 @@ def _kv(e, env):
             keyvar = g.target.id
         else:
             return _one(("?", A.norm(e)))
+        if isinstance(e, ast.SetComp):
+            src = _uniq(src)
         toks = list(src)
+        if isinstance(e.elt, ast.Name) and e.elt.id == keyvar and not g.ifs and toks and not any(t[0] == "?" for t in toks):
+            return (src, False)
         if isinstance(e.elt, ast.Name) and e.elt.id == keyvar and len(toks) == 1:
             if not g.ifs:
                 return (src, False)
@@ -580,8 +672,9 @@ def _step(env, nd, value):
         accs = _accumulating_loop(st, env)
         if accs:
             (src, _so) = _kv(st.iter, env)
+            adds = {c_.value.func.value.id: c_.value.func.attr for c_ in st.body}
             for nm in accs:
-                env[nm] = (env[nm][0] | src, False)
+                env[nm] = ((env[nm][0] | src) if adds.get(nm) == "add" else _joined(env[nm][0], src), False)
             env[st.target.id] = _one(_ELEM)
         return
     if nd.kind == "test" and st is not None:
@@ -609,8 +702,10 @@ def _step(env, nd, value):
         env.update(new)
     elif isinstance(st, ast.AugAssign) and isinstance(st.target, ast.Name):
         cur = env.get(st.target.id, _one(("?", st.target.id)))[0]
-        if isinstance(st.op, (ast.BitOr, ast.Add)):
-            env[st.target.id] = (cur | _kv(value, env)[0], False)
+        if isinstance(st.op, ast.BitOr):
+            env[st.target.id] = (_uniq(cur | _kv(value, env)[0]), False)
+        elif isinstance(st.op, ast.Add):
+            env[st.target.id] = (_joined(cur, _kv(value, env)[0]), False)
         else:
             env[st.target.id] = (cur | frozenset([("?", A.norm(st))]), False)
     elif isinstance(st, ast.Expr) and isinstance(value, ast.Call) and isinstance(value.func, ast.Attribute) \
@@ -619,7 +714,7 @@ def _step(env, nd, value):
         cur, so = env[nm]
         if meth in ("update", "extend") and not c.keywords:
             for a in c.args:
-                cur = cur | _kv(a, env)[0]
+                cur = (cur | _kv(a, env)[0]) if meth == "update" else _joined(cur, _kv(a, env)[0])
             env[nm] = (cur, False)
         elif meth == "sort" and not c.args and not c.keywords:
             env[nm] = (cur, True)
@@ -708,7 +803,8 @@ def _show(srcs):
     out = []
     for t in sorted(srcs, key=repr):
         out.append({"own": lambda: "self.%s keys%s" % (t[1], "" if t[2] is None else " " + repr(t[2])), "parent": lambda: "parent.list_keys()",
-                    "parent-partial": lambda: "a restricted parent listing", "parentobj": lambda: "the parent object"}.get(t[0], lambda: "`%s`" % t[-1])())
+                    "parent-partial": lambda: "a restricted parent listing", "parentobj": lambda: "the parent object",
+                    "dup": lambda: "two listings put end to end (a key in both is listed twice)"}.get(t[0], lambda: "`%s`" % t[-1])())
     return out
 
 
@@ -717,7 +813,7 @@ def _shape_get(ck, R, cls):
     else an error — decided per exit of the function on the literals of the paths that reach it."""
     m = cls.methods.get("get")
     ck.need(m is not None, "%s.get not found" % cls.qual)
-    fa = FA(ck, m)
+    fa = PM.view(ck, m, "branches")
     K = _param(ck, fa, 1, "the key")
     own_re = re.compile(r"^%s in self\.(\w+)(\.keys\(\))?$" % re.escape(K))
     paths, falls = _exit_paths(fa)
@@ -771,7 +867,7 @@ def _shape_list(ck, R, cls):
     sorted(own keys) otherwise — decided per return on the key sources of the returned value."""
     m = cls.methods.get("list_keys")
     ck.need(m is not None, "%s.list_keys not found" % cls.qual)
-    fa = FA(ck, m)
+    fa = PM.view(ck, m, "collections")
     INC = _param(ck, fa, 1, "_include_merge_parent")
     paths, falls = _exit_paths(fa)
     why = []
@@ -861,7 +957,7 @@ def _not_inherited(res, flt):
 def _stored_form_filter(ck, R):
     """PicklePartition.list_keys(include): every key of the index when include is set, the keys whose entry is
     not marked from_parent otherwise; sorted."""
-    lk = FA(ck, PM.PICKLE_PARTITION + ".list_keys")
+    lk = PM.view(ck, PM.PICKLE_PARTITION + ".list_keys", "collections")
     INC = _param(ck, lk, 1, "_include_merge_parent")
     paths, falls = _exit_paths(lk)
     ok = bool(paths) and not falls
@@ -996,9 +1092,9 @@ def check_parent_objects_brought_over(ck, R):
         ok = False
         why = "does nothing with the object"
         for c in reads:
-            conds = fa.conditions(fa.stmt_of(c))
-            if conds is None:
-                continue
+            # the conditions under which the read is reached, per path (a verdict kept in a local is read through the
+            # value the path gave it)
+            conds = [[(l.text, l.pos) for l in lits] for (_t, lits, _tr) in PM.walk(fa, fa.nodes(fa.stmt_of(c))[:1])]
             def excused(txt, pol):
                 same = ("%s is self" % src) in txt or ("self is %s" % src) in txt
                 there = "exists" in txt
@@ -1013,8 +1109,216 @@ def check_parent_objects_brought_over(ck, R):
     ck.need(n >= 1, "no DataSource implementation with a reference() method found")
 
 
+# ---- R9: what one store() call computes travels with the object being stored, never on the strategy ------------
+
+def _place(fa, target, at):
+    """Where an assignment target lives: ('param', name, attr) an attribute / item of an object the caller handed
+    in, ('shared', text) the strategy object itself, something reached through it, a class or a module-level name,
+    ('local', text) an object this call made, None for a plain local name."""
+    if isinstance(target, ast.Name):
+        for s in fa.stmts((ast.Global, ast.Nonlocal)):
+            if target.id in s.names:
+                return ("shared", "the module-level name `%s`" % target.id)
+        return None
+    if isinstance(target, ast.Starred):
+        return _place(fa, target.value, at)
+    root = target
+    while isinstance(root, (ast.Attribute, ast.Subscript)):
+        root = root.value
+    text = A.norm(target)
+    if isinstance(root, ast.Call):
+        # type(self).x / self.__class__ ... / something().x
+        inner = A.norm(root)
+        return ("shared", "`%s`" % text) if "self" in _names(root) or "cls" in _names(root) else ("local", inner)
+    if not isinstance(root, ast.Name):
+        return ("local", text)
+    if not fa.df.is_local(root.id):
+        return ("shared", "`%s` (reached through the module-level / class name `%s`)" % (text, root.id))
+    try:
+        x = fa.xnorm(root, at)
+    except Exception:  # noqa
+        x = root.id
+    head = x.split(".")[0].split("[")[0].split("(")[0]
+    if head in ("self", "cls") or x.startswith(("type(self)", "self.__class__")):
+        return ("shared", "`%s` (the strategy object, one per codec, shared by every call)" % text)
+    if head in fa.fi.params and x == head:
+        return ("param", head, target.attr if isinstance(target, ast.Attribute) and target.value is root else None)
+    if head in fa.fi.params:
+        return ("param", head, None)
+    return ("local", text)
+
+
+def _writes(fa):
+    """[(statement, target, value, cfg node)] for every binding a function makes other than to a plain local:
+    assignment targets (tuple targets paired with tuple values) and setattr(o, 'a', v)."""
+    out = []
+    for s in fa.stmts((ast.Assign, ast.AnnAssign, ast.AugAssign)):
+        ids = fa.nodes(s)
+        if not ids:
+            continue
+        pairs = PM._flat_targets(s) if not isinstance(s, ast.AugAssign) else [(s.target, s.value)]
+        for (t, v) in pairs:
+            out.append((s, t, v if v is not None else getattr(s, "value", None), ids[0]))
+    for s in fa.stmts(ast.Expr):
+        c = s.value
+        if isinstance(c, ast.Call) and isinstance(c.func, ast.Name) and c.func.id == "setattr" and len(c.args) == 3 and A.const_str(c.args[1]) and fa.nodes(s):
+            t = ast.copy_location(ast.Attribute(value=c.args[0], attr=A.const_str(c.args[1]), ctx=ast.Store()), c)
+            out.append((s, t, c.args[2], fa.nodes(s)[0]))
+    return out
+
+
+def _lazy_init(fa, stmt, target):
+    """`if self.x is None: self.x = <something that does not depend on the call's arguments>`"""
+    conds = fa.conditions(stmt)
+    txt = A.norm(target)
+    return bool(conds) and all(("%s is None" % txt, True) in c for c in conds)
+
+
+def _strategy_classes(ck):
+    base = ck.repo.try_cls("storage_base.Codec.Strategy")
+    ck.need(base is not None, "storage_base.Codec.Strategy not found")
+    return ck.repo.subclasses(base, strict=False)
+
+
+def _attrs_read_off(fa, expr, at, param):
+    """Attributes of `param` that the value of `expr` is read from: p.a (through aliases), getattr(p, 'a'[, d])."""
+    out = set()
+    for a in fa.deps(expr, at):
+        if a.startswith("attr:%s." % param):
+            out.add(a[len("attr:%s." % param):].split(".")[0])
+    try:
+        e = fa.expand(expr, at)
+    except Exception:  # noqa
+        e = expr
+    for x in ast.walk(e):
+        if isinstance(x, ast.Call) and isinstance(x.func, ast.Name) and x.func.id == "getattr" and len(x.args) in (2, 3) and A.norm(x.args[0]) == param \
+                and A.const_str(x.args[1]):
+            out.add(A.const_str(x.args[1]))
+    return out
+
+
+def check_call_state_travels_with_object(ck, R):
+    """There is ONE strategy object per result type and codec, i.e. per storage backend: every store() call of every
+    thread goes through it, and storing a partition whose values are partitions re-enters it.  What a call computes
+    for the object at hand (the serialised merged index, on its way from store() to encode()) therefore travels
+    with that object or as an argument; parked on the strategy (or anything reached through it, a class, a module
+    variable) it is overwritten by the next call and the index of ANOTHER partition is written as this one's."""
+    ck.rule(R, "what a store() call computes for one partition (the serialised merged index handed from store() to encode()) is carried by the "
+               "object being stored or passed as an argument, never kept on the shared strategy object", 3)
+    # (a) no strategy method other than the constructor assigns state of the strategy that a strategy method reads
+    classes = _strategy_classes(ck)
+    read_fields = set()
+    for cls in classes:
+        for m in cls.methods.values():
+            for x in A.walk_body(m.node):
+                f = self_attr(x) if isinstance(x, ast.Attribute) and isinstance(x.ctx, ast.Load) else None
+                if f:
+                    read_fields.add(f)
+    for cls in classes:
+        bad = []
+        for (name, m) in sorted(cls.methods.items()):
+            if name == "__init__":
+                continue
+            fa = FA(ck, m)
+            for (s, t, v, at) in _writes(fa):
+                pl = _place(fa, t, at)
+                if pl is None or pl[0] != "shared":
+                    continue
+                f = self_attr(t) if isinstance(t, ast.Attribute) else None
+                if f is not None and f not in read_fields:
+                    continue  # written, never read: cannot reach a result
+                if isinstance(t, ast.Attribute) and _lazy_init(fa, s, t) and v is not None and not any(a.startswith("param:") and a != "param:self" for a in fa.deps(v, at)):
+                    continue
+                bad.append((fa, s, pl[1]))
+        ck.ob(R, "%s::keeps-no-call-state" % cls.qual, not bad,
+              "%s keeps nothing of a call on the strategy object" % cls.name if not bad else
+              "%s assigns %s in the course of a call: the strategy is shared by all store / load calls of the backend (other threads, partitions "
+              "nested in partitions), so the next call replaces the value before this one has used it and one result is written with another "
+              "result's data" % (bad[0][0].qual, bad[0][2]), bad[0][0].where(bad[0][1]) if bad else A.loc(cls, cls.node))
+    # (b) the serialised index goes from store() to the writer on the partition being stored
+    fa = PM.view(ck, PM.STORE, "branches")
+    OBJ = "obj"
+    ck.need(OBJ in fa.fi.params, "%s: parameter `obj` (the partition being stored) not found" % fa.qual)
+    sers = fa.calls("_serialize_index")
+    ck.need(sers, "%s: no call of _serialize_index" % fa.qual)
+
+    def carries(v, at):
+        return v is not None and "call:_serialize_index" in fa.deps(v, at)
+
+    carriers, parked = {}, []
+    for (s, t, v, at) in _writes(fa):
+        if not carries(v, at):
+            continue
+        pl = _place(fa, t, at)
+        if pl is None or pl[0] == "local":
+            continue
+        if pl[0] == "param" and pl[1] == OBJ and pl[2]:
+            carriers[pl[2]] = s
+        else:
+            parked.append((s, pl[1] if pl[0] == "shared" else "`%s` (not the partition being stored)" % A.norm(t)))
+    direct = []
+    for c in fa.calls():
+        if c in sers or not fa.nodes(c):
+            continue
+        for a_ in list(c.args) + [k.value for k in c.keywords]:
+            a_ = a_.value if isinstance(a_, ast.Starred) else a_
+            if carries(a_, fa.nodes(c)[0]) and A.call_attr(c) not in ("setattr",):
+                direct.append(c)
+    ok = not parked and (bool(carriers) or bool(direct))
+    ck.ob(R, fa.key(None, "index-bytes-travel-with-object"), ok,
+          "the serialised index is handed on %s" % ("on the partition being stored (%s)" % sorted(carriers) if carriers else "as an argument") if ok else
+          ("the serialised index of the partition being stored is put into %s: a second store() through the same strategy (another thread, "
+           "another function of the cluster) replaces it before encode() has read it, and this partition is written with the other one's keys"
+           % parked[0][1] if parked else "nothing hands the serialised index to the writer"),
+          fa.where(parked[0][0]) if parked else fa.where(sers[0]))
+    owner = fa.fi.cls
+    enc = ck.repo.find_method(owner, "encode") if owner is not None else None
+    if enc is None or ck.repo.is_abstract(enc):
+        ck.need(bool(direct), "%s: store() parks the index for encode(), and no encode() is defined" % fa.qual)
+        return
+    fe = FA(ck, enc)
+    ep = [p for p in fe.fi.params if p != "self"]
+    ck.need(ep, "%s: parameter for the object to encode not found" % fe.qual)
+    P = ep[0]
+    mutable_fields = set()
+    for cls in classes:
+        for (name, m) in cls.methods.items():
+            if name == "__init__":
+                continue
+            fm = FA(ck, m)
+            for (_s, t, _v, _at) in _writes(fm):
+                f = self_attr(t) if isinstance(t, ast.Attribute) else None
+                if f:
+                    mutable_fields.add(f)
+    why, where = None, fe.where()
+    n_ret = 0
+    for r in fe.returns():
+        ids = fe.nodes(r)
+        if not ids or r.value is None:
+            continue
+        n_ret += 1
+        atoms = fe.deps(r.value, ids[0])
+        shared = sorted(a for a in atoms if a.startswith("attr:self.") and a[len("attr:self."):].split(".")[0] in mutable_fields)
+        got = _attrs_read_off(fe, r.value, ids[0], P)
+        if shared:
+            why, where = "encode() returns `%s`, state of the shared strategy that store() calls overwrite, not what belongs to the object it is " \
+                         "asked to encode" % shared[0][5:], fe.where(r)
+        elif carriers and not (got & set(carriers)):
+            if "call:_serialize_index" in atoms and ("param:" + P) in atoms:
+                continue  # serialises what the object carries
+            why, where = "encode() reads %s of the object while store() leaves the serialised index in %s: stale or missing bytes are written as the " \
+                         "partition's index" % (sorted(got) or "nothing", sorted(carriers)), fe.where(r)
+        elif not carriers and ("param:" + P) not in atoms:
+            why, where = "what encode() returns (`%s`) does not come from the object it is asked to encode" % A.short(r.value, 50), fe.where(r)
+    if n_ret == 0 and not direct:
+        why = "encode() returns nothing"
+    ck.ob(R, fe.key(None, "encode-reads-what-store-left"), why is None,
+          "encode() returns what store() left on the object being stored" if why is None else why, where)
+
+
 def check(ck):
     from .memo import check_new_memo_tables
+    ck.run(check_call_state_travels_with_object, ck, "C17.R9")
     ck.run(check_parent_objects_brought_over, ck, "C17.R8")
     ck.run(check_new_memo_tables, ck, "C17.M1", ('partition', 'storage_base', 'storage_filesystem'))
     from .c07 import check_who_may_delete
